@@ -1312,6 +1312,16 @@ Proof.
     + constructor. rewrite Forall_forall in *. intros x Hx. eapply IH; eauto.
 Qed.
 
+Lemma usage_gives_fit s vds raw vs defs call :
+  schema_wf s -> coerce_variable_values s vds raw = Ok vs -> usage_ok s vds defs call ->
+  call_vars_fit s vs defs call.
+Proof.
+  intros Hwf Ev Huse. destruct (cvv_sound _ _ _ _ Hwf Ev) as (Hnd & Hvs).
+  intros d l Hd Hl x tp v Hat Hx.
+  apply alookup_In in Hx. destruct (Hvs _ _ Hx) as (vd & Hvd & Hname & Hc).
+  eapply conforms_sub; [eapply Huse; eauto|]. apply conforms_weaken. assumption.
+Qed.
+
 Theorem exec_sound s defs vds call raw kw :
   schema_wf s -> args_wf s defs -> usage_ok s vds defs call ->
   exec_kwargs s defs vds call raw = Ok kw ->
@@ -1809,4 +1819,56 @@ Proof.
   unfold var_binding.
   destruct (alookup (ity_name (ity_of_ty (vd_type vd))) s) as [d|] eqn:E; [|congruence].
   rewrite (Hin d eq_refl). simpl. rewrite Hraw, Hc. reflexivity.
+Qed.
+
+(* ------------------------------------------------------------------ *)
+(* list-of-list and non-null-inside-list corners, stated explicitly      *)
+Theorem single_value_wraps_every_level s j t v n1 n2 :
+  plain_json j = true -> coerce_value s j t = Ok v ->
+  coerce_value s j (IList n1 (IList n2 t)) = Ok (PList [PList [v]]).
+Proof. intros Hp H. rewrite !cv_single by assumption. rewrite H. reflexivity. Qed.
+
+Theorem single_literal_wraps_every_level s vs l t v n1 n2 :
+  literal_plain l = true -> value_from_ast s vs l t = Ok v ->
+  value_from_ast s vs l (IList n1 (IList n2 t)) = Ok (PList [PList [v]]).
+Proof.
+  intros Hp H. apply literal_plain_split in Hp as (Hp & Hl).
+  rewrite !vfa_single by assumption. rewrite H. reflexivity.
+Qed.
+
+Theorem list_corners s n :
+  (* null for a nullable list of non-null items is the null list, not [null] *)
+  coerce_value s JNull (IList false (INamed true n)) = Ok PNone
+  (* a non-null list of nullable items may hold nulls *)
+  /\ coerce_value s (JList [JNull; JNull]) (IList true (INamed false n)) = Ok (PList [PNone; PNone])
+  (* the empty list is a list at every level *)
+  /\ coerce_value s (JList []) (IList true (IList true (INamed true n))) = Ok (PList [])
+  /\ coerce_value s (JList [JList []]) (IList true (IList true (INamed true n))) = Ok (PList [PList []])
+  (* a null item of a non-null item type is refused, at any depth, whatever else the list holds *)
+  /\ (forall nn l v, In JNull l -> coerce_value s (JList l) (IList nn (INamed true n)) <> Ok v)
+  /\ (forall nn nn' l l' v, In (JList l') l -> In JNull l' ->
+        coerce_value s (JList l) (IList nn (IList nn' (INamed true n))) <> Ok v)
+  (* null is never wrapped into a singleton list *)
+  /\ (forall v, coerce_value s JNull (IList true (INamed false n)) <> Ok v).
+Proof.
+  repeat split; try reflexivity.
+  - intros nn l v Hin. apply wrong_rejected. eapply W_item; [exact Hin|]. constructor. reflexivity.
+  - intros nn nn' l l' v Hl Hn. apply wrong_rejected.
+    eapply W_item; [exact Hl|]. eapply W_item; [exact Hn|]. constructor. reflexivity.
+  - intros v. rewrite cv_null. discriminate.
+Qed.
+
+(* directive arguments of a request *)
+Theorem exec_directive_sound s defs vds dname ds raw kw :
+  schema_wf s -> args_wf s defs ->
+  (forall d, find_directive dname ds = Some d -> usage_ok s vds defs (d_args d)) ->
+  exec_directive_args s defs vds dname ds raw = Ok (Some kw) ->
+  NoDup (map fst kw)
+  /\ (forall k v, In (k, v) kw -> exists a, In a defs /\ f_py a = k /\ conforms s (f_ty a) v)
+  /\ (forall a, In a defs -> f_default a <> None \/ ity_nn (f_ty a) = true -> In (f_py a) (map fst kw)).
+Proof.
+  intros Hwf Ha Huse H. unfold exec_directive_args in H.
+  destruct (coerce_variable_values s vds raw) as [vs| | |] eqn:Ev; try discriminate.
+  eapply directive_args_sound; eauto.
+  intros d Hd. eapply usage_gives_fit; eauto.
 Qed.
